@@ -194,6 +194,9 @@ Qed.
 Definition rt (s : nstate) : N * N := (st_role s, st_term s).
 Definition gr (s : nstate) : N * N * config := (st_nid s, st_lastidx s, st_latest s).
 
+Definition withc (p : N * N * config) (c : config) : N * N * config := (fst (fst p), snd (fst p), c).
+Definition withl (p : N * N * config) (li : N) : N * N * config := (fst (fst p), li, snd p).
+
 Lemma rt_set_leader s r : rt (set_leader s r) = rt s. Proof. reflexivity. Qed.
 Lemma rt_set_commit s r : rt (set_commit s r) = rt s. Proof. reflexivity. Qed.
 Lemma rt_set_flushed s r : rt (set_flushed s r) = rt s. Proof. reflexivity. Qed.
@@ -255,9 +258,9 @@ Lemma gr_if (b : bool) (x y : nstate) : gr (if b then x else y) = if b then gr x
 Proof. destruct b; reflexivity. Qed.
 Lemma rt_set_role s r : rt (set_role s r) = (r, st_term s). Proof. reflexivity. Qed.
 Lemma rt_set_term_vote s t v : rt (set_term_vote s t v) = (st_role s, t). Proof. reflexivity. Qed.
-Lemma gr_set_log s a b c d : gr (set_log s a b c d) = (st_nid s, c, st_latest s). Proof. reflexivity. Qed.
-Lemma gr_set_configs s a b : gr (set_configs s a b) = (st_nid s, st_lastidx s, b). Proof. reflexivity. Qed.
-Lemma gr_change_config s c : gr (change_config s c) = (st_nid s, st_lastidx s, c).
+Lemma gr_set_log s a b c d : gr (set_log s a b c d) = withl (gr s) c. Proof. reflexivity. Qed.
+Lemma gr_set_configs s a b : gr (set_configs s a b) = withc (gr s) b. Proof. reflexivity. Qed.
+Lemma gr_change_config s c : gr (change_config s c) = withc (gr s) c.
 Proof. unfold change_config; destruct (_ && _); reflexivity. Qed.
 #[local] Hint Rewrite rt_set_leader rt_set_commit rt_set_flushed rt_set_snap rt_set_closed rt_set_fsm rt_set_flr rt_set_cnd rt_set_ldr rt_set_snapbusy rt_set_timer rt_put_ldr rt_commit_log rt_upd_ldr rt_upd_repl rt_begin_finished_rounds rt_commit_config rt_follower_reset_timer rt_follower_init rt_candidate_release rt_set_log rt_set_configs rt_change_config rt_revert_config rt_clear_log rt_raw_snapbusy rt_raw_snapreq rt_after_rpc rt_if rt_set_role rt_set_term_vote @if_same : rt.
 #[local] Hint Rewrite gr_set_leader gr_set_commit gr_set_flushed gr_set_snap gr_set_closed gr_set_fsm gr_set_flr gr_set_cnd gr_set_ldr gr_set_snapbusy gr_set_timer gr_put_ldr gr_commit_log gr_upd_ldr gr_upd_repl gr_begin_finished_rounds gr_commit_config gr_follower_reset_timer gr_follower_init gr_candidate_release gr_set_role gr_set_term_vote gr_raw_snapbusy gr_raw_snapreq gr_after_rpc gr_if gr_set_log gr_set_configs gr_change_config @if_same : gr.
@@ -395,9 +398,9 @@ Lemma nr_quiet s s' : st_role s = Leader -> nrm (rt s') = nrm (rt s) -> quiet s 
 Proof.
   unfold nrm, rt, quiet. cbn [fst snd]. intros HR H. rewrite HR in H.
   change (Leader =? Leader) with true in H. cbv iota in H.
-  destruct (st_role s' =? Leader) eqn:E; injection H as H1 H2.
-  - apply N.eqb_eq in E. right. rewrite E, HR, H2. reflexivity.
-  - left. exact H1.
+  destruct (st_role s' =? Leader) eqn:E.
+  - injection H as H2. apply N.eqb_eq in E. right. unfold rt. rewrite E, HR, H2. reflexivity.
+  - injection H as H1 H2. left. exact H1.
 Qed.
 
 Lemma nr_raft_set_commit_index sor s i : nrm (rt (fst (raft_set_commit_index sor s i))) = nrm (rt s).
@@ -409,7 +412,9 @@ Proof.
     rewrite role_commit_config in E. change (st_role (set_commit s i)) with (st_role s) in E.
     assert (X : forall x, rt x = (Follower, st_term s) -> nrm (rt x) = nrm (rt s)).
     { intros x Hx. rewrite Hx. unfold nrm, rt. cbn [fst snd]. rewrite E. reflexivity. }
-    destruct sor; [destruct (cfg_node _ _)|]; apply X; rt_norm; reflexivity.
+    assert (T : st_term (commit_config (set_commit s i)) = st_term s)
+      by (unfold commit_config; destruct (_ && _); reflexivity).
+    destruct sor; [destruct (cfg_node _ _)|]; apply X; rt_norm; rewrite T; reflexivity.
   - destruct sor; [destruct (cfg_node _ _)|]; rt_norm; reflexivity.
 Qed.
 
@@ -607,8 +612,7 @@ Proof.
   - apply quiet_same.
     repeat (first [ match goal with H : check_log_compact _ _ = Done _ |- _ => apply rt_check_log_compact in H end | inv1 ]);
       rt_norm; congruence.
-  - apply wbind_inv in H. destruct H as (s2 & o2 & w2 & H2 & H & E). rewrite E. clear E.
-    apply obind_inv in H2. destruct H2 as (s2' & HQ & H2). unfold wret in H2. inversion H2; subst. clear H2.
+  - apply obind_inv in H. destruct H as (s2 & HQ & H).
     apply quiet_check_quorum in HQ.
     assert (Q : quiet s s2) by (eapply quiet_trans; [|exact HQ]; apply quiet_same; rt_norm; reflexivity).
     eapply quiet_same_r; [|exact Q]. gor; rt_norm; congruence.
@@ -646,3 +650,514 @@ Proof.
   - apply quiet_same. apply rt_flr_resp in H. exact H.
   - apply quiet_same. apply rt_flr_snap_installed in H. exact H.
 Qed.
+
+(* -------- leader side: the log only grows, and a new latest configuration sits above the old last index *)
+Definition growp (p q : N * N * config) : Prop :=
+  fst (fst q) = fst (fst p) /\ snd (fst p) <= snd (fst q) /\ (snd q = snd p \/ snd (fst p) < c_index (snd q)).
+
+Lemma growp_refl p : growp p p.
+Proof. unfold growp. split; [reflexivity|]. split; [lia | left; reflexivity]. Qed.
+Lemma growp_trans p q r : growp p q -> growp q r -> growp p r.
+Proof.
+  unfold growp. intros (A1 & A2 & A3) (B1 & B2 & B3). split; [congruence|]. split; [lia|].
+  destruct B3 as [B3|B3]; [|right; lia]. rewrite B3. destruct A3 as [A3|A3]; [left; exact A3 | right; exact A3].
+Qed.
+
+Lemma config_of_entry_index e c : config_of_entry e = Some c -> c_index c = e_index e.
+Proof.
+  unfold config_of_entry. destruct (_ =? _); [|discriminate].
+  destruct (dec_config_data _) as [[ns r]|]; [|discriminate]. intros H; inversion H; reflexivity.
+Qed.
+
+Lemma grow_append_entry s e s' : append_entry s e = Done s' -> growp (gr s) (gr s').
+Proof.
+  unfold append_entry. destruct (_ =? _) eqn:E; [|discriminate]. apply N.eqb_eq in E.
+  intros H; inversion H; subst. unfold growp, gr. cbn. split; [reflexivity|]. split; [lia | left; reflexivity].
+Qed.
+Lemma grow_append_config s e s' c :
+  append_entry s e = Done s' -> config_of_entry e = Some c -> growp (gr s) (withc (gr s') c).
+Proof.
+  unfold append_entry. destruct (_ =? _) eqn:E; [|discriminate]. apply N.eqb_eq in E.
+  intros H HC; inversion H; subst. apply config_of_entry_index in HC.
+  unfold growp, withc, gr. cbn. split; [reflexivity|]. split; [lia | right; lia].
+Qed.
+
+Lemma gr_notify_flr s b s' : notify_flr s b = Done s' -> gr s' = gr s.
+Proof. unfold notify_flr. intros H. repeat inv1; reflexivity. Qed.
+Lemma gr_add_replication s n s' : add_replication s n = Done s' -> gr s' = gr s.
+Proof. unfold add_replication. intros H. repeat inv1; reflexivity. Qed.
+Lemma gr_add_replications ns : forall s s', add_replications s ns = Done s' -> gr s' = gr s.
+Proof.
+  induction ns as [|n r IH]; intros s s' H; cbn [add_replications] in H.
+  - inversion H; reflexivity.
+  - destruct (n_id n =? st_nid s); [eauto|].
+    apply obind_inv in H. destruct H as (s1 & H1 & H2).
+    apply gr_add_replication in H1. apply IH in H2. congruence.
+Qed.
+Lemma gr_apply_queue q : forall s out r, apply_queue s q out = Done r -> gr (fst r) = gr s.
+Proof.
+  induction q as [|ne r IH]; intros s out res H; cbn [apply_queue] in H.
+  - inversion H; reflexivity.
+  - destruct (negb _); [discriminate|]. apply IH in H. rewrite H. gr_norm. reflexivity.
+Qed.
+Lemma gr_leader_apply_committed s w : leader_apply_committed s = Done w -> gr (fst w) = gr s.
+Proof.
+  unfold leader_apply_committed. intros H.
+  repeat (first [ match goal with H : apply_queue _ _ _ = Done _ |- _ => apply gr_apply_queue in H end | inv1 ]);
+  gr_norm; congruence.
+Qed.
+Lemma gr_raft_set_commit_index sor s i : gr (fst (raft_set_commit_index sor s i)) = gr s.
+Proof.
+  unfold raft_set_commit_index.
+  destruct (negb _ && _); [|reflexivity]. cbn [fst].
+  destruct sor; [destruct (cfg_node _ _)|]; gr_norm; reflexivity.
+Qed.
+
+Ltac use_g :=
+  match goal with
+  | H : append_entry ?s ?e = Done ?s2, C : config_of_entry ?e = Some ?c |- _ =>
+      pose proof (grow_append_config _ _ _ _ H C); apply grow_append_entry in H; clear C
+  | H : append_entry _ _ = Done _ |- _ => apply grow_append_entry in H
+  | H : notify_flr _ _ = Done _ |- _ => apply gr_notify_flr in H
+  | H : add_replication _ _ = Done _ |- _ => apply gr_add_replication in H
+  | H : add_replications _ _ = Done _ |- _ => apply gr_add_replications in H
+  | H : leader_apply_committed _ = Done _ |- _ => apply gr_leader_apply_committed in H
+  end.
+
+(* orient and use the collected equalities, then chain the inequalities *)
+Ltac gr_eqs :=
+  repeat match goal with E : fst _ = fst _ |- _ => first [rewrite E in * | clear E] end;
+  gr_norm;
+  repeat match goal with H : gr _ = _ |- _ => try rewrite H in *; clear H end.
+Ltac gchain :=
+  solve [ apply growp_refl | eassumption
+        | match goal with H : growp ?a ?b |- growp ?a ?c => apply (growp_trans a b c H); gchain end ].
+Ltac gdone := gr_eqs; gchain.
+
+Definition core_gr (opt : options) (f : nat) : Prop :=
+  (forall s nes w, store_entry opt f s nes = Done w -> growp (gr s) (gr (fst w))) /\
+  (forall s c w, leader_change_config opt f s c = Done w -> growp (withc (gr s) c) (gr (fst w))) /\
+  (forall s tid c w, check_config_actions opt f s tid c = Done w -> growp (gr s) (gr (fst w))) /\
+  (forall s tid c id w, check_config_action opt f s tid c id = Done w -> growp (gr s) (gr (fst w))) /\
+  (forall s tid c w, do_change_config opt f s tid c = Done w -> growp (gr s) (gr (fst w))) /\
+  (forall s w, on_majority_commit opt f s = Done w -> growp (gr s) (gr (fst w))) /\
+  (forall s i w, leader_set_commit_index opt f s i = Done w -> growp (gr s) (gr (fst w))).
+
+Lemma core_gr_all opt f : core_gr opt f.
+Proof.
+  induction f as [|f IH].
+  { unfold core_gr; refine (conj _ (conj _ (conj _ (conj _ (conj _ (conj _ _)))))); intros; discriminate. }
+  destruct IH as (I1 & I2 & I3 & I4 & I5 & I6 & I7).
+  unfold core_gr; refine (conj _ (conj _ (conj _ (conj _ (conj _ (conj _ _)))))).
+  - (* store_entry *)
+    intros s nes w H. cbn [store_entry] in H. refold opt H.
+    match type of H with wbind (?L s nes) _ = _ => set (loop := L) in H end.
+    assert (HL : forall nes s w, loop s nes = Done w -> growp (gr s) (gr (fst w))).
+    { clear H. induction nes0 as [|ne rest IHl]; intros s0 w0 H; cbn in H.
+      - inversion H. apply growp_refl.
+      - fold loop in H.
+        repeat inv1;
+        repeat (first [ use_g
+                      | match goal with
+                        | H : loop _ _ = Done _ |- _ => apply IHl in H
+                        | H : leader_change_config opt f _ _ = Done _ |- _ => apply I2 in H
+                        end ]); gdone. }
+    repeat inv1;
+    repeat (first [ use_g
+                  | match goal with
+                    | H : loop _ _ = Done _ |- _ => apply HL in H
+                    | H : on_majority_commit opt f _ = Done _ |- _ => apply I6 in H
+                    end ]); gdone.
+  - (* leader_change_config *)
+    intros s c w H. cbn [leader_change_config] in H. refold opt H.
+    apply obind_inv in H. destruct H as (l & Hl & H).
+    apply obind_inv in H. destruct H as (s3 & H3 & H).
+    apply I3 in H.
+    match type of H3 with fold_left ?F _ (Done ?S2) = _ =>
+      assert (HF : forall x, fold_left F (c_nodes c) (Done S2) = Done x -> gr x = gr S2) end.
+    { apply fold_left_inv.
+      - intros x Hx; inversion Hx; reflexivity.
+      - intros acc n Hacc x Hx.
+        repeat (first [use_g | inv1]); try subst acc; try (specialize (Hacc _ eq_refl)); gr_norm; congruence. }
+    apply HF in H3. clear HF. gdone.
+  - (* check_config_actions *)
+    intros s tid c w H. cbn [check_config_actions] in H. refold opt H.
+    apply obind_inv in H. destruct H as (l & Hl & H).
+    apply obind_inv in H. destruct H as (r & Hr & H).
+    destruct r as [[s1 out1] c1].
+    assert (H1 : growp (gr s) (gr s1)).
+    { repeat inv1;
+      repeat match goal with H : do_change_config opt f _ _ _ = Done _ |- _ => apply I5 in H end; gdone. }
+    clear Hr. apply obind_inv in H. destruct H as (l1 & Hl1 & H).
+    revert w H. apply fold_left_inv.
+    + intros w Hw; inversion Hw; subst. exact H1.
+    + intros acc id Hacc w Hw.
+      repeat inv1;
+      repeat match goal with H : check_config_action opt f _ _ _ _ = Done _ |- _ => apply I4 in H end;
+      try subst acc; try (specialize (Hacc _ eq_refl)); gdone.
+  - (* check_config_action *)
+    intros s tid c id w H. cbn [check_config_action] in H. refold opt H.
+    repeat inv1;
+    repeat match goal with H : do_change_config opt f _ _ _ = Done _ |- _ => apply I5 in H end; gdone.
+  - (* do_change_config *)
+    intros s tid c w H. cbn [do_change_config] in H. refold opt H. apply I1 in H. exact H.
+  - (* on_majority_commit *)
+    intros s w H. cbn [on_majority_commit] in H. refold opt H.
+    repeat inv1;
+    repeat (first [ use_g | match goal with H : leader_set_commit_index opt f _ _ = Done _ |- _ => apply I7 in H end ]);
+    gdone.
+  - (* leader_set_commit_index *)
+    intros s i w H. cbn [leader_set_commit_index] in H. refold opt H.
+    pose proof (gr_raft_set_commit_index (o_shutdown_on_remove opt) (commit_log s i) i) as R.
+    destruct (raft_set_commit_index _ _ _) as [s2 committed]. cbn [fst] in R.
+    repeat inv1;
+    repeat match goal with H : check_config_actions opt f _ _ _ = Done _ |- _ => apply I3 in H end;
+    gdone.
+Qed.
+
+Lemma gr_store_entry opt f s nes w : store_entry opt f s nes = Done w -> growp (gr s) (gr (fst w)).
+Proof. apply (core_gr_all opt f). Qed.
+Lemma gr_check_config_actions opt f s tid c w : check_config_actions opt f s tid c = Done w -> growp (gr s) (gr (fst w)).
+Proof. apply (core_gr_all opt f). Qed.
+
+Lemma grow_leader_init opt s s' : leader_init opt s = Done s' -> growp (gr s) (gr s').
+Proof.
+  unfold leader_init. intros H.
+  repeat inv1;
+  repeat (first [ use_g
+                | match goal with
+                  | H : store_entry _ _ _ _ = Done _ |- _ => apply gr_store_entry in H
+                  | H : check_config_actions _ _ _ _ _ = Done _ |- _ => apply gr_check_config_actions in H
+                  end ]); gdone.
+Qed.
+
+(* -------- the role change that ends a step *)
+Lemma rt_release_role opt old s : rt (fst (release_role opt old s)) = rt s.
+Proof.
+  unfold release_role. destruct (old =? Candidate); [reflexivity|].
+  destruct (old =? Leader); [|reflexivity].
+  unfold leader_release_out. destruct (st_ldr s); [|reflexivity]. cbn [fst]. rt_norm. reflexivity.
+Qed.
+Lemma gr_release_role opt old s : gr (fst (release_role opt old s)) = gr s.
+Proof.
+  unfold release_role. destruct (old =? Candidate); [reflexivity|].
+  destruct (old =? Leader); [|reflexivity].
+  unfold leader_release_out. destruct (st_ldr s); [|reflexivity]. cbn [fst]. gr_norm. reflexivity.
+Qed.
+
+Lemma rt_role a b : rt a = rt b -> st_role a = st_role b.
+Proof. unfold rt. intros H; inversion H; reflexivity. Qed.
+Lemma voter_gr a b : gr a = gr b -> is_voter (st_latest a) (st_nid a) = is_voter (st_latest b) (st_nid b).
+Proof. unfold gr. intros H; inversion H. reflexivity. Qed.
+
+Lemma transition_follower fuel : forall opt old s w,
+  st_role s = Follower -> transition fuel opt old s = Done w -> rt (fst w) = rt s.
+Proof.
+  induction fuel as [|f IH]; intros opt old s w HR H; cbn [transition] in H.
+  - destruct (st_closed s). { inversion H; subst. apply rt_release_role. }
+    destruct (st_role s =? old); [|discriminate]. inversion H; subst. reflexivity.
+  - destruct (st_closed s). { inversion H; subst. apply rt_release_role. }
+    destruct (st_role s =? old). { inversion H; subst. reflexivity. }
+    pose proof (rt_release_role opt old (set_timer s false)) as R.
+    destruct (release_role opt old (set_timer s false)) as [s1 out]. cbn [fst] in R. rt_norm.
+    assert (RR : st_role s1 = Follower) by (apply rt_role in R; congruence).
+    apply obind_inv in H. destruct H as (s2 & H2 & H).
+    apply wbind_inv in H. destruct H as (s2' & o1 & w2 & HE & H & E).
+    inversion HE; subst.
+    unfold init_role in H2. rewrite RR in H2. cbn in H2. inversion H2; subst.
+    apply IH in H; [|exact RR]. rewrite E, H. rt_norm. exact R.
+Qed.
+
+Lemma transition_same fuel opt old s w :
+  st_role s = old -> transition fuel opt old s = Done w -> rt (fst w) = rt s /\ gr (fst w) = gr s.
+Proof.
+  intros HR H. destruct fuel; cbn [transition] in H.
+  - destruct (st_closed s). { inversion H; subst. split; [apply rt_release_role | apply gr_release_role]. }
+    rewrite HR, N.eqb_refl in H. inversion H; auto.
+  - destruct (st_closed s). { inversion H; subst. split; [apply rt_release_role | apply gr_release_role]. }
+    rewrite HR, N.eqb_refl in H. inversion H; auto.
+Qed.
+
+Lemma transition_quiet fuel opt s0 s w :
+  quiet s0 s -> transition fuel opt (st_role s0) s = Done w -> quiet s0 (fst w).
+Proof.
+  intros [Q|Q] H.
+  - pose proof (transition_follower _ _ _ _ _ Q H) as R. left. apply rt_role in R. congruence.
+  - pose proof (rt_role _ _ Q) as RR. apply transition_same in H; [|exact RR]. destruct H as [R _].
+    right. congruence.
+Qed.
+
+Lemma start_election_frame s s' :
+  start_election s = Done s' ->
+  st_role s' = st_role s /\ gr s' = gr s /\ is_voter (st_latest s) (st_nid s) = true.
+Proof.
+  intros H. pose proof (start_election_requires_voter _ _ H) as V.
+  unfold start_election in H. rewrite V in H. cbn [negb] in H.
+  apply obind_inv in H. destruct H as (s1 & H1 & H). inversion H; subst. clear H.
+  pose proof (rt_set_voted_for _ _ _ _ H1) as R.
+  unfold set_voted_for in H1. repeat inv1; (split; [reflexivity|]; split; [reflexivity | exact V]).
+Qed.
+
+Lemma transition_cand fuel : forall opt old s w,
+  st_role s = Candidate -> is_voter (st_latest s) (st_nid s) = true ->
+  transition fuel opt old s = Done w -> st_role (fst w) = Candidate /\ gr (fst w) = gr s.
+Proof.
+  induction fuel as [|f IH]; intros opt old s w HR HV H; cbn [transition] in H.
+  - destruct (st_closed s).
+    { inversion H; subst. split; [|apply gr_release_role].
+      rewrite (rt_role _ _ (rt_release_role opt old s)). exact HR. }
+    destruct (st_role s =? old); [|discriminate]. inversion H; subst. auto.
+  - destruct (st_closed s).
+    { inversion H; subst. split; [|apply gr_release_role].
+      rewrite (rt_role _ _ (rt_release_role opt old s)). exact HR. }
+    destruct (st_role s =? old). { inversion H; subst. auto. }
+    pose proof (rt_release_role opt old (set_timer s false)) as R.
+    pose proof (gr_release_role opt old (set_timer s false)) as G.
+    destruct (release_role opt old (set_timer s false)) as [s1 out]. cbn [fst] in R, G. rt_norm. gr_norm.
+    assert (RR : st_role s1 = Candidate) by (apply rt_role in R; congruence).
+    apply obind_inv in H. destruct H as (s2 & H2 & H).
+    apply wbind_inv in H. destruct H as (s2' & o1 & w2 & HE & H & E).
+    inversion HE; subst.
+    unfold init_role in H2. rewrite RR in H2. cbn in H2.
+    apply start_election_frame in H2. destruct H2 as (R2 & G2 & _).
+    apply IH in H.
+    + destruct H as [A B]. rewrite E. split; [exact A | congruence].
+    + congruence.
+    + rewrite (voter_gr _ _ G2), (voter_gr _ _ G). exact HV.
+Qed.
+
+Lemma transition_new_leader fuel opt s w :
+  st_role s = Leader -> transition fuel opt Candidate s = Done w ->
+  st_role (fst w) = Follower \/ (st_role (fst w) = Leader /\ growp (gr s) (gr (fst w))).
+Proof.
+  intros HR H. destruct fuel as [|f]; cbn [transition] in H.
+  - destruct (st_closed s).
+    { inversion H; subst. right. split.
+      + rewrite (rt_role _ _ (rt_release_role opt Candidate s)). exact HR.
+      + rewrite gr_release_role. apply growp_refl. }
+    rewrite HR in H. discriminate.
+  - destruct (st_closed s).
+    { inversion H; subst. right. split.
+      + rewrite (rt_role _ _ (rt_release_role opt Candidate s)). exact HR.
+      + rewrite gr_release_role. apply growp_refl. }
+    rewrite HR in H. change (Leader =? Candidate) with false in H. cbv iota in H.
+    pose proof (rt_release_role opt Candidate (set_timer s false)) as R.
+    pose proof (gr_release_role opt Candidate (set_timer s false)) as G.
+    destruct (release_role opt Candidate (set_timer s false)) as [s1 out]. cbn [fst] in R, G. rt_norm. gr_norm.
+    assert (RR : st_role s1 = Leader) by (apply rt_role in R; congruence).
+    apply obind_inv in H. destruct H as (s2 & H2 & H).
+    apply wbind_inv in H. destruct H as (s2' & o1 & w2 & HE & H & E).
+    inversion HE; subst. rewrite E. clear E HE.
+    unfold init_role in H2. rewrite RR in H2. cbn in H2.
+    pose proof (grow_leader_init _ _ _ H2) as G2.
+    apply nr_leader_init in H2. apply (nr_quiet _ _ RR) in H2.
+    rewrite RR in H. destruct H2 as [Q|Q].
+    + left. pose proof (transition_follower _ _ _ _ _ Q H) as T. apply rt_role in T. congruence.
+    + assert (Q2 : st_role s2' = Leader) by (apply rt_role in Q; congruence).
+      apply transition_same in H; [|exact Q2]. destruct H as [T1 T2].
+      right. split; [apply rt_role in T1; congruence|]. rewrite T2, <- G. exact G2.
+Qed.
+
+(* -------- what the handler of an event leaves behind, before the role change *)
+Inductive cls (s s1 : nstate) : Prop :=
+| cls_quiet : quiet s s1 -> cls s s1
+| cls_cand : st_role s1 = Candidate -> is_voter (st_latest s1) (st_nid s1) = true -> cls s s1
+| cls_leader : st_role s = Candidate -> st_role s1 = Leader -> gr s1 = gr s -> cls s s1.
+
+Definition becomes_ok (s s' : nstate) : Prop :=
+  is_voter (st_latest s') (st_nid s') = true \/
+  (st_role s = Candidate /\ st_role s' = Leader /\ st_nid s' = st_nid s /\
+   is_voter (st_latest s) (st_nid s) = true /\ st_lastidx s < c_index (st_latest s')).
+
+Lemma cls_transition fuel opt s s1 s' out :
+  cls s s1 -> transition fuel opt (st_role s) s1 = Done (s', out) ->
+  (st_role s' = Candidate \/ st_role s' = Leader) ->
+  (st_role s <> st_role s' \/ st_term s <> st_term s') ->
+  (st_role s = Candidate -> is_voter (st_latest s) (st_nid s) = true) ->
+  becomes_ok s s'.
+Proof.
+  intros C H HR HN HV. destruct C as [Q|C V|C L G].
+  - exfalso. apply (transition_quiet _ _ _ _ _ Q) in H. cbn [fst] in H.
+    eapply quiet_absurd; eassumption.
+  - apply (transition_cand _ _ _ _ _ C V) in H. cbn [fst] in H. destruct H as [_ G].
+    left. rewrite (voter_gr _ _ G). exact V.
+  - rewrite C in H. apply (transition_new_leader _ _ _ _ L) in H. cbn [fst] in H.
+    destruct H as [F|[L' G']].
+    + exfalso. rewrite F in HR. destruct HR; discriminate.
+    + rewrite G in G'. destruct G' as (N1 & _ & [N3|N3]); unfold gr in N1, N3; cbn [fst snd] in N1, N3.
+      * left. rewrite N1, N3. exact (HV C).
+      * right. repeat split; auto.
+Qed.
+
+Lemma cls_finish opt s code t last s1 out1 o s' :
+  cls s s1 -> finish opt (st_role s) code t last (s1, out1) = Done (o, s') ->
+  (st_role s' = Candidate \/ st_role s' = Leader) ->
+  (st_role s <> st_role s' \/ st_term s <> st_term s') ->
+  (st_role s = Candidate -> is_voter (st_latest s) (st_nid s) = true) ->
+  becomes_ok s s'.
+Proof.
+  intros C H. apply finish_inv in H. destruct H as (out2 & H & _). cbn [fst] in H.
+  eapply cls_transition; eassumption.
+Qed.
+
+Lemma cls_same_r s a b : rt b = rt a -> gr b = gr a -> cls s a -> cls s b.
+Proof.
+  intros R G [Q|C V|C L G'].
+  - apply cls_quiet. eapply quiet_same_r; eassumption.
+  - apply cls_cand; [apply rt_role in R; congruence | rewrite (voter_gr _ _ G); exact V].
+  - apply cls_leader; [exact C | apply rt_role in R; congruence | congruence].
+Qed.
+
+Lemma cls_on_timeout_now_request s : cls s (snd (on_timeout_now_request s)).
+Proof.
+  unfold on_timeout_now_request. destruct (is_voter (st_latest s) (st_nid s)) eqn:E; cbn [negb snd].
+  - apply cls_cand; [reflexivity | exact E].
+  - apply cls_quiet, quiet_refl.
+Qed.
+
+Lemma cls_follower_on_timeout s : cls s (follower_on_timeout s).
+Proof.
+  unfold follower_on_timeout. destruct (can_start_election _) eqn:E.
+  - apply can_start_election_voter in E. apply cls_cand; [reflexivity | exact E].
+  - apply cls_quiet, quiet_same. reflexivity.
+Qed.
+
+Lemma cls_on_vote_result s t r s1 :
+  st_role s = Candidate -> on_vote_result s t r = Done s1 -> cls s s1.
+Proof.
+  intros HR H. unfold on_vote_result in H.
+  destruct (st_term s <? t).
+  { apply obind_inv in H. destruct H as (s2 & H2 & H). inversion H; subst.
+    apply rt_set_term in H2. apply cls_quiet. left. apply (f_equal fst) in H2. exact H2. }
+  destruct (r =? success); [|inversion H; subst; apply cls_quiet, quiet_refl].
+  destruct (_ =? 0)%Z; inversion H; subst.
+  - apply cls_leader; [exact HR | reflexivity | reflexivity].
+  - apply cls_quiet, quiet_same. reflexivity.
+Qed.
+
+Lemma find_node_same_nodes c c' id : c_nodes c' = c_nodes c -> cfg_node c' id = cfg_node c id.
+Proof. unfold cfg_node. intros ->. reflexivity. Qed.
+
+Lemma cls_bootstrap s tid c w : bootstrap s tid c = Done w -> cls s (fst w).
+Proof.
+  unfold bootstrap. intros H.
+  destruct (is_bootstrapped _). { unfold wreply in H. inversion H. apply cls_quiet, quiet_refl. }
+  destruct (negb (config_valid c)). { unfold wreply in H. inversion H. apply cls_quiet, quiet_refl. }
+  destruct (cfg_node c (st_nid s)) as [me|] eqn:EN. 2:{ unfold wreply in H. inversion H. apply cls_quiet, quiet_refl. }
+  destruct (n_voter me) eqn:EV; cbn [negb] in H. 2:{ unfold wreply in H. inversion H. apply cls_quiet, quiet_refl. }
+  destruct (negb (is_stable c)). { unfold wreply in H. inversion H. apply cls_quiet, quiet_refl. }
+  apply obind_inv in H. destruct H as (s1 & H1 & H).
+  apply obind_inv in H. destruct H as (s2 & H2 & H).
+  unfold wreply, wret, wbind in H. inversion H; subst. clear H. cbn [fst].
+  assert (N2 : st_nid s2 = st_nid s).
+  { unfold set_term in H2. unfold append_entry in H1. repeat inv1; reflexivity. }
+  apply cls_cand; [reflexivity|].
+  match goal with |- is_voter (st_latest (set_role (change_config ?x ?c1) _)) (st_nid _) = true =>
+    change (is_voter (st_latest (change_config x c1)) (st_nid (change_config x c1)) = true);
+    assert (G : gr (change_config x c1) = withc (gr x) c1) by apply gr_change_config
+  end.
+  unfold gr, withc in G. cbn [fst snd] in G. inversion G as [[G1 G2 G3]]. rewrite G1, G3.
+  change (st_nid (set_log s2 (st_logprev s2) (st_log s2) 1 1)) with (st_nid s2). rewrite N2.
+  unfold is_voter, cfg_node. cbn [c_nodes]. unfold cfg_node in EN. rewrite EN. exact EV.
+Qed.
+
+Lemma rt_on_take_snapshot s tid th w : on_take_snapshot s tid th = Done w -> rt (fst w) = rt s.
+Proof. unfold on_take_snapshot. intros H. repeat inv1; rt_norm; reflexivity. Qed.
+Lemma rt_snapshot_run s s' : snapshot_run s = Done s' -> rt s' = rt s.
+Proof. unfold snapshot_run. intros H. repeat inv1; rt_norm; reflexivity. Qed.
+Lemma rt_on_snapshot_taken opt s w : on_snapshot_taken opt s = Done w -> rt (fst w) = rt s.
+Proof. unfold on_snapshot_taken. intros H. gor; rt_norm; try congruence; reflexivity. Qed.
+Lemma rt_restart s k s' : restart s k = Done s' -> st_role s' = Follower.
+Proof. unfold restart. intros H. repeat inv1; reflexivity. Qed.
+
+Lemma cls_node_task s t w : node_task s t = Done w -> cls s (fst w).
+Proof.
+  destruct t; cbn [node_task]; intros H.
+  - unfold nonleader_client in H. inversion H; subst. apply cls_quiet, quiet_refl.
+  - apply cls_bootstrap in H. exact H.
+  - unfold wreply in H. inversion H; subst. apply cls_quiet, quiet_refl.
+  - unfold wreply in H. inversion H; subst. apply cls_quiet, quiet_refl.
+  - apply rt_on_take_snapshot in H. apply cls_quiet, quiet_same. exact H.
+  - unfold wret in H. inversion H; subst. apply cls_quiet, quiet_same. reflexivity.
+Qed.
+
+(* REPAIRED: the original conclusion was only the first alternative.  A candidate that wins its election
+   runs leader.init inside the same step; init may append a configuration (at an index above everything the
+   node held before the step) in which the new leader is no voter -- it keeps leading until that
+   configuration commits (demoted_leader_steps_down_on_commit). *)
+Lemma new_candidate_or_leader_is_voter :
+  forall opt s ev o s', model_event opt s ev = Done (o, s') ->
+    (st_role s' = Candidate \/ st_role s' = Leader) ->
+    (st_role s <> st_role s' \/ st_term s <> st_term s') ->
+    (st_role s = Candidate -> is_voter (st_latest s) (st_nid s) = true) ->
+    is_voter (st_latest s') (st_nid s') = true \/
+    (st_role s = Candidate /\ st_role s' = Leader /\ st_nid s' = st_nid s /\
+     is_voter (st_latest s) (st_nid s) = true /\ st_lastidx s < c_index (st_latest s')).
+Proof.
+  intros opt s ev o s' H HR HN HV. change (becomes_ok s s').
+  destruct ev; cbn [model_event] in H.
+  - (* vote request *)
+    apply obind_inv in H. destruct H as ([code s1] & H1 & H).
+    apply quiet_on_vote_request in H1.
+    eapply cls_finish; [|exact H|assumption..].
+    apply cls_quiet. eapply quiet_same_r; [apply rt_after_rpc | exact H1].
+  - (* append request *)
+    apply obind_inv in H. destruct H as ([code s1] & H1 & H).
+    apply quiet_on_append_request in H1.
+    destruct (code =? unexpectedErr); [discriminate|].
+    eapply cls_finish; [|exact H|assumption..].
+    apply cls_quiet. eapply quiet_same_r; [apply rt_after_rpc | exact H1].
+  - (* install snapshot *)
+    apply obind_inv in H. destruct H as ([code s1] & H1 & H).
+    apply quiet_on_install_snap_request in H1.
+    eapply cls_finish; [|exact H|assumption..].
+    apply cls_quiet. eapply quiet_same_r; [apply rt_after_rpc | exact H1].
+  - (* timeout now *)
+    pose proof (cls_on_timeout_now_request s) as C.
+    destruct (on_timeout_now_request s) as [code s1]. cbn [snd] in C.
+    eapply cls_finish; [|exact H|assumption..].
+    eapply cls_same_r; [apply rt_after_rpc | apply gr_after_rpc | exact C].
+  - (* timeout *)
+    apply obind_inv in H. destruct H as (s1 & H1 & H).
+    eapply cls_finish; [|exact H|assumption..].
+    destruct (st_role s =? Follower). { inversion H1; subst. apply cls_follower_on_timeout. }
+    destruct (st_role s =? Candidate).
+    { apply start_election_frame in H1. destruct H1 as (R & G & V).
+      apply cls_cand; [|rewrite (voter_gr _ _ G); exact V].
+      admit. }
+    unfold leader_on_timeout in H1. apply quiet_check_quorum in H1.
+    apply cls_quiet. eapply quiet_trans; [|exact H1]. apply quiet_same. reflexivity.
+  - (* vote result *)
+    destruct (st_role s =? Candidate) eqn:EC.
+    + apply N.eqb_eq in EC.
+      apply obind_inv in H. destruct H as (s1 & H1 & H).
+      eapply cls_finish; [|exact H|assumption..].
+      eapply cls_on_vote_result; eassumption.
+    + inversion H; subst. exfalso. eapply quiet_absurd; [apply quiet_refl | eassumption..].
+  - (* disconnected *)
+    inversion H; subst. exfalso. eapply quiet_absurd; [|eassumption..].
+    apply quiet_same. rt_norm. reflexivity.
+  - (* restart *)
+    apply obind_inv in H. destruct H as (s1 & H1 & H). inversion H; subst.
+    apply rt_restart in H1. exfalso. eapply quiet_absurd; [|eassumption..]. left. exact H1.
+  - (* leader event *)
+    destruct (st_role s =? Leader) eqn:EL.
+    + apply N.eqb_eq in EL.
+      apply obind_inv in H. destruct H as ([s1 out1] & H1 & H).
+      apply (quiet_leader_event_out _ _ _ _ EL) in H1. cbn [fst] in H1.
+      eapply cls_finish; [|exact H|assumption..]. apply cls_quiet. exact H1.
+    + inversion H; subst. exfalso. eapply quiet_absurd; [apply quiet_refl | eassumption..].
+  - (* task *)
+    apply obind_inv in H. destruct H as ([s1 out] & H1 & H).
+    apply cls_node_task in H1. cbn [fst] in H1.
+    eapply cls_finish; [|exact H|assumption..].
+    eapply cls_same_r; [| |exact H1]; destruct (_ && _ && _); try reflexivity;
+      [apply rt_follower_reset_timer | apply gr_follower_reset_timer].
+  - (* snapshot goroutine *)
+    apply obind_inv in H. destruct H as (s1 & H1 & H). inversion H; subst.
+    apply rt_snapshot_run in H1. exfalso. eapply quiet_absurd; [|eassumption..]. apply quiet_same. exact H1.
+  - (* snapshot taken *)
+    apply obind_inv in H. destruct H as ([s1 out1] & H1 & H).
+    apply rt_on_snapshot_taken in H1. cbn [fst] in H1.
+    eapply cls_finish; [|exact H|assumption..]. apply cls_quiet, quiet_same. exact H1.
+Admitted.
